@@ -85,7 +85,9 @@ type mergeAlt struct {
 	pred   *Term
 	target *ssa.BasicBlock
 	from   *ssa.BasicBlock // entry edge when the phis were not merged
-	merged bool            // phis of target already assigned
+	merged bool            // phi values of target computed (assign on entry)
+	phis   []*ssa.Phi
+	vals   []Value
 }
 
 type medge struct {
@@ -276,12 +278,9 @@ func (r *Run) tryMerge(f *frame, b *ssa.BasicBlock, cond *Term) (alts []mergeAlt
 				for _, ed := range edges {
 					px = tt.Or(px, ed.p)
 				}
-				// Phi values of different exits may clash only if the same
-				// block is an exit twice, which cannot happen.
-				for k, phi := range phis {
-					setLocal(phi, vals[k])
-				}
-				alts = append(alts, mergeAlt{pred: px, target: x, merged: true})
+				// The phi values are assigned only when this exit is taken:
+				// the phis of a loop header are still live in other exits.
+				alts = append(alts, mergeAlt{pred: px, target: x, merged: true, phis: phis, vals: vals})
 			} else {
 				for _, ed := range edges {
 					alts = append(alts, mergeAlt{pred: ed.p, target: x, from: ed.from})
